@@ -74,6 +74,7 @@ func verifStrandedFinal(c *connection) func() {
 //verif:loop 40
 //verif:poloop 3
 //verif:potimeout 400
+//verif:also C19
 func verifHarness_C06_handoff(sc int) {
 	var c *connection
 	switch sc {
